@@ -230,6 +230,15 @@ impl Sim {
             // A run that keeps producing events without ending is reported by the parent as a
             // crash-class violation ("runaway"); show what it was doing.
             let tail: Vec<String> = events.iter().rev().take(6).map(|e| format!("{}@{}us {:?}", e.seq, e.t_us, e.ev).chars().take(160).collect()).collect();
+            // Events spread over virtual time (redelivery cycles of a large workload across long
+            // clock advances) are a long run, not a runaway: the run is abandoned as inconclusive
+            // (exit 4, counted as truncated). Events piling up while the virtual clock stands
+            // (almost) still are a runaway (exit 3, reported as CRASH.process).
+            let span_us = events[events.len() - 1].t_us - events[events.len() - 100_000].t_us;
+            if span_us >= 10_000_000 {
+                eprintln!("truncated: more than {} events, the last 100000 spread over {} virtual us; last: {}", EVENT_CAP, span_us, tail.join(" | "));
+                std::process::exit(4);
+            }
             eprintln!("runaway: more than {} events; last: {}", EVENT_CAP, tail.join(" | "));
             std::process::exit(3);
         }
